@@ -7,7 +7,6 @@
 package main
 
 import (
-	"runtime"
 	"bufio"
 	"crypto/sha256"
 	"encoding/hex"
@@ -17,6 +16,7 @@ import (
 	"math/rand"
 	"os"
 	"path/filepath"
+	"runtime"
 	"sort"
 	"strconv"
 	"strings"
@@ -47,6 +47,8 @@ type Out struct {
 	violations []Violation
 	notes      []string
 	start      time.Time
+	raised     map[string]int
+	closed     bool // set by Close: a sub-command abandoned by the hang watchdog must not write any more
 }
 
 func newOut(dir string) *Out {
@@ -83,6 +85,9 @@ func (o *Out) caseK(k0, line, implOut string, nontrivial bool) {
 	defer o.mu.Unlock()
 	if strings.ContainsAny(line, "\n\r") || strings.ContainsAny(implOut, "\n\r") {
 		panic("newline in case line")
+	}
+	if o.closed {
+		return
 	}
 	o.cases.WriteString(line)
 	o.cases.WriteByte('\n')
@@ -144,9 +149,20 @@ func (o *Out) Note(f string, a ...any) {
 	o.mu.Unlock()
 }
 
+// violationsOf: how often Violate was called for this kind (including suppressed repeats)
+func (o *Out) violationsOf(kind string) int {
+	o.mu.Lock()
+	defer o.mu.Unlock()
+	return o.raised[kind]
+}
+
 func (o *Out) Violate(kind, detail string, replay any) {
 	o.mu.Lock()
 	defer o.mu.Unlock()
+	if o.raised == nil {
+		o.raised = map[string]int{}
+	}
+	o.raised[kind]++
 	same := 0
 	for _, v := range o.violations {
 		if v.Kind == kind {
@@ -161,6 +177,9 @@ func (o *Out) Violate(kind, detail string, replay any) {
 }
 
 func (o *Out) Close(rule string) {
+	o.mu.Lock()
+	defer o.mu.Unlock()
+	o.closed = true
 	o.cases.Flush()
 	o.impl.Flush()
 	o.kinds.Flush()
@@ -249,7 +268,9 @@ func main() {
 	rlog.SetDummyLogger()
 	o := newOut(outDir)
 	r := rand.New(rand.NewSource(seed))
-	func() {
+	finished := make(chan struct{})
+	go func() {
+		defer close(finished)
 		// a panic that escapes the sub-command (the implementation panicked where the harness did
 		// not expect it) is a finding with its stack as the replay, not a crashed check
 		defer func() {
@@ -261,6 +282,26 @@ func main() {
 		}()
 		f(o, r)
 	}()
+	// a sub-command that does not come back (the implementation blocked somewhere no per-step
+	// watchdog of the harness covers) is reported with the goroutine dump as the replay, instead of
+	// sitting there until ./check's outer timeout.  The limit is far above any observed run time
+	// (quick tiers finish in seconds, the longest thorough tier in about three minutes).
+	limit := 900 * time.Second
+	if thorough() {
+		limit = 2400 * time.Second
+	}
+	if s := os.Getenv("VERIF_HANG_S"); s != "" {
+		if v, err := strconv.Atoi(s); err == nil && v > 0 {
+			limit = time.Duration(v) * time.Second
+		}
+	}
+	select {
+	case <-finished:
+	case <-time.After(limit):
+		buf := make([]byte, 256<<10)
+		buf = buf[:runtime.Stack(buf, true)]
+		o.Violate(name+".hang", fmt.Sprintf("the sub-command did not finish within %v: the implementation blocked under the harness", limit), map[string]any{"goroutines": string(buf)})
+	}
 	o.Close(rules[name])
 }
 
